@@ -29,24 +29,26 @@ const Chain = "spa"
 
 // Profile of a provider.
 type Profile struct {
-	Name     string
-	Stake    int64
-	Geo      int32
-	Addon    bool
-	Ext      bool
-	Frozen   bool
+	Name      string
+	Stake     int64
+	Geo       int32
+	Addon     bool
+	Ext       bool
+	Frozen    bool
 	LateStake bool // staked in the epoch that is queried: stake applied only at the next epoch
+	Unfreeze  bool // frozen at stake time, unfrozen inside the first queried epoch: applied one block after the next epoch start, i.e. sits out that whole epoch too
 }
 
 var Profiles = []Profile{
-	{"base-min", 1000, 1, false, false, false, false},
-	{"base-3x", 3000, 2, false, false, false, false},
-	{"addon-min", 1000, 2, true, false, false, false},
-	{"addon-3x", 3000, 1, true, false, false, false},
-	{"addon-ext-min", 1000, 1, true, true, false, false},
-	{"addon-ext-3x", 3000, 3, true, true, false, false},
-	{"frozen", 1000, 1, true, true, true, false},
-	{"late", 3000, 1, true, true, false, true},
+	{"base-min", 1000, 1, false, false, false, false, false},
+	{"base-3x", 3000, 2, false, false, false, false, false},
+	{"addon-min", 1000, 2, true, false, false, false, false},
+	{"addon-3x", 3000, 1, true, false, false, false, false},
+	{"addon-ext-min", 1000, 1, true, true, false, false, false},
+	{"addon-ext-3x", 3000, 3, true, true, false, false, false},
+	{"frozen", 1000, 1, true, true, true, false, false},
+	{"late", 3000, 1, true, true, false, true, false},
+	{"unfrozen-late", 3000, 1, true, true, true, false, true},
 }
 
 var (
@@ -83,13 +85,13 @@ func pol(max uint64, geo int32, mode planstypes.SELECTED_PROVIDERS_MODE, list []
 
 // Cfg is the configuration enumerator bound to one world.
 type Cfg struct {
-	W        *chain.World
-	Provs    []sigs.Account
-	Cons     sigs.Account
-	Plans    []PolicyDef
-	Subs     []PolicyDef
-	Admins   []PolicyDef
-	Unknown  string
+	W       *chain.World
+	Provs   []sigs.Account
+	Cons    sigs.Account
+	Plans   []PolicyDef
+	Subs    []PolicyDef
+	Admins  []PolicyDef
+	Unknown string
 }
 
 // NewCfg builds the fixture: spec, validator, provider accounts (not staked), consumer account, one plan per plan policy.
@@ -175,19 +177,33 @@ func Multisets() [][4]int {
 }
 
 type Result struct {
-	Case      string
-	Pairing   []string // provider indexes in order
-	Eligible  []string
-	Want      int
-	Err       string
+	Case       string
+	Pairing    []string // provider indexes in order
+	Eligible   []string
+	Want       int
+	Err        string
 	Nontrivial bool
-	Viol      []ev.Violation
+	Viol       []ev.Violation
 }
 
 func (c *Cfg) stakeAll(ms [4]int, late bool) error {
 	w := c.W
 	for i, pi := range ms {
 		p := Profiles[pi]
+		if late && p.Unfreeze {
+			r := w.Tx(func() error {
+				msg := &pairingtypes.MsgUnfreezeProvider{Creator: c.Provs[i].Addr.String(), ChainIds: []string{Chain}}
+				if err := msg.ValidateBasic(); err != nil {
+					return err
+				}
+				_, err := w.Servers.PairingServer.UnfreezeProvider(w.GoCtx, msg)
+				return err
+			})
+			if !r.OK() {
+				return fmt.Errorf("unfreeze: %v %s", r.Err, r.Panic)
+			}
+			continue
+		}
 		if p.LateStake != late {
 			continue
 		}
@@ -281,7 +297,18 @@ func (c *Cfg) Evaluate(ms [4]int, pi, si, ai int, visit func(Result)) {
 	}
 	w.NextBlock(chain.BlockDt)
 	for e := 0; e < 2; e++ {
-		visit(c.check(name+fmt.Sprintf("|epoch+%d", e), ms))
+		r1 := c.check(name+fmt.Sprintf("|epoch+%d", e), ms)
+		visit(r1)
+		if e == 1 {
+			// the same epoch queried again two blocks later: the pairing is a function of the epoch, not of the block
+			w.NextBlock(chain.BlockDt)
+			w.NextBlock(chain.BlockDt)
+			r2 := c.check(name+"|epoch+1|mid", ms)
+			if r1.Err == "" && r2.Err == "" && fmt.Sprint(r1.Pairing) != fmt.Sprint(r2.Pairing) {
+				r2.Viol = append(r2.Viol, ev.Violation{Property: "C02", Key: "pairing-changes-within-epoch", What: fmt.Sprintf("%s: pairing at the epoch's first block %v, two blocks later %v", name, r1.Pairing, r2.Pairing)})
+			}
+			visit(r2)
+		}
 		if e == 0 {
 			if p := w.AdvanceToNextEpoch(chain.BlockDt); p != "" {
 				visit(Result{Case: name, Viol: []ev.Violation{{Property: "C37", Key: "block-panic:" + first(p), What: "panic in block processing: " + first(p)}}})
@@ -379,6 +406,8 @@ func (c *Cfg) check(name string, ms [4]int) Result {
 			if i, ok := idx[p.Address]; ok {
 				pr := Profiles[ms[i]]
 				switch {
+				case pr.Unfreeze:
+					why = "unfrozen too late for this epoch"
 				case pr.Frozen:
 					why = "frozen"
 				case pr.LateStake:
@@ -523,7 +552,7 @@ func init() {
 		}
 		run.Set("evaluations", evals)
 		run.Set("distinct_nontrivial", nontriv)
-		run.Set("rule", fmt.Sprintf("every %d-th multiset of 4 providers over 8 profiles (stake, geolocation, add-on/extension services, frozen, stake applied next epoch) x 6 plan policies x 5 subscription policies x 5 admin policies x 2 consecutive epochs; each built with real stake/freeze/buy/set-policy transactions; non-trivial = some staked provider is not eligible and the expected list is non-empty, distinct by (pairing, eligible set, expected count)", step))
+		run.Set("rule", fmt.Sprintf("every %d-th multiset of 4 providers over 9 profiles (stake, geolocation, add-on/extension services, frozen, stake applied next epoch, unfrozen mid-epoch) x 6 plan policies x 5 subscription policies x 5 admin policies x 2 consecutive epochs, the second queried at its first block and two blocks later; each built with real stake/freeze/buy/set-policy transactions; non-trivial = some staked provider is not eligible and the expected list is non-empty, distinct by (pairing, eligible set, expected count)", step))
 		run.Set("exhaustive", exh)
 		run.Set("outcomes", outcomes)
 		run.Set("configurations_without_pairing", buildErrs)
